@@ -23,8 +23,9 @@ def main(argv):
         replay = argv[argv.index("--replay") + 1]
     try:
         mod = importlib.import_module("vp." + pid.lower())
-    except ImportError as e:
-        print("no driver for %s: %s" % (pid, e), file=sys.stderr)
+    except Exception as e:      # a broken driver is a tool error, never a verdict
+        traceback.print_exc()
+        print("TOOL-ERROR %s: driver does not load: %s" % (pid, e), file=sys.stderr)
         return 2
     try:
         return mod.main(tier, replay)
